@@ -1848,6 +1848,9 @@ fn main() {
                 for _ in 0..2 {
                     let again = run(&ops[i]);
                     if again.skip.is_some() || sigs(&again) != first || again.obs != r.obs {
+                        if std::env::var("FLEET_TEST_VERBOSE").is_ok() {
+                            eprintln!("unconfirmed: {} :: {:?}", ops[i], r.fails);
+                        }
                         skipped_tries.lock().unwrap().push("unconfirmed_failure".into());
                         r = CaseOut { skip: Some("unconfirmed_failure".into()), ..Default::default() };
                         break;
